@@ -32,7 +32,34 @@ def rand_char(rng: random.Random) -> str:
             return chr(c)
 
 
+LONG_BITS = ["<b>bold & \"quoted\"</b> ", "a < b && c > d; ", "it's &amp; that's &lt;fine&gt; ", "line one\nline two\r\n",
+             "</script><script>alert('x')</script>", "<!-- comment --> ", "plain words without any markup at all, really ",
+             "\u00e9\u00e8 \U0001F600 \u65e5\u672c "]
+
+
 def rand_text(rng: random.Random, maxlen: int = 8) -> str:
+    """Adversarial text.  Besides fresh strings it re-uses strings produced earlier in the same
+    run (so the same text shows up as a text child, as HTML(), as an attribute value, ...: what a
+    content-keyed cache or other history dependence needs in order to show) and occasionally
+    returns a long string (> 64 characters)."""
+    recent = getattr(rng, "_recent_texts", None)
+    if recent is None:
+        recent = []
+        rng._recent_texts = recent
+    r0 = rng.random()
+    if recent and r0 < 0.12:
+        return rng.choice(recent)
+    s = _fresh_text(rng, maxlen)
+    if r0 > 0.97:
+        s = "".join(rng.choice(LONG_BITS) for _ in range(rng.randrange(3, 8))) + s
+    if len(s) >= 2:
+        recent.append(s)
+        if len(recent) > 40:
+            del recent[rng.randrange(0, len(recent))]
+    return s
+
+
+def _fresh_text(rng: random.Random, maxlen: int = 8) -> str:
     r = rng.random()
     n = rng.randrange(0, maxlen + 1)
     if r < 0.08:
@@ -155,6 +182,21 @@ def all_catalogue_names() -> list[str]:
     return out
 
 
+_CAT: list = []
+
+
+def _catalogue() -> list:
+    if not _CAT:
+        _CAT.extend(sorted(set(all_catalogue_names())))
+    return _CAT
+
+
+def _default_ws(name: str) -> bool:
+    from htmltools import svg, tags
+    f = getattr(tags, name, None) or getattr(svg, name)
+    return f().add_ws
+
+
 def rand_name(rng: random.Random, kinds: str = "bivsc") -> tuple[str, bool]:
     k = rng.choice(kinds)
     if k == "b":
@@ -165,7 +207,12 @@ def rand_name(rng: random.Random, kinds: str = "bivsc") -> tuple[str, bool]:
         return rng.choice(VOID_NAMES), rng.random() < 0.5
     if k == "s":
         return rng.choice(NOESC_NAMES), rng.random() < 0.7
-    # custom / catalogue
+    if k == "k":
+        # any element of the tags / svg catalogue, with its documented default flag
+        cat = _catalogue()
+        n = rng.choice(cat)
+        return n, _default_ws(n)
+    # custom
     return rng.choice(["my-el", "x", "H1", "svg:g", "textPath", "a1"]), rng.random() < 0.5
 
 
